@@ -36,6 +36,7 @@ impl ClockBox {
     pub uninterp spec fn last_status(&self) -> SyncStatus;
     #[verifier::external_body]
     pub fn synchronize(&mut self, t: MonotonicTime) -> (r: SyncStatus)
+        requires old(self).syncs().len() > 0 ==> t.t >= old(self).syncs().last(),   //@ C18 #times-passed-to-synchronize-never-decrease //@if mon
         ensures final(self).syncs() == old(self).syncs().push(t.t), final(self).last_status() == r
     { unimplemented!() }
 }
